@@ -780,6 +780,11 @@ func (c *FnCtx) loopModified(li *LoopInfo) {
 			case *ssa.Select:
 				for _, st := range x.States {
 					c.chanMods(st.Chan, other)
+					if st.Dir == types.SendOnly {
+						c.pointSetMods("send:"+chanVarName(st.Chan), other)
+					} else {
+						c.pointSetMods("recv:"+chanVarName(st.Chan), other)
+					}
 				}
 			case *ssa.Call:
 				if c.spec != nil && len(c.spec.Sets) > 0 {
